@@ -15,7 +15,7 @@ from pyvc.values import BOOL, INT, REAL, LstObj, Ref, fresh, to_real
 from . import path as cpath
 from .common import (
     TIS_PY, RGen, S, fld, forall_range, mk_path, op, ppat, pplen, sys_fields, unchanged, unchanged_below,
-    unchanged_except,
+    unchanged_except, wf_path,
 )
 from .path import PATH_SCALARS, _pp_only_changed_at
 
@@ -182,7 +182,13 @@ def _wf_post(ctx):
     if ctx.a("return_seg"):
         es = ctx.a("ens_set")
         rg = es["rgen"] if es else None
-        u = rg.draws[-1][1] if rg is not None and rg.draws else None
+        if ctx.summary and rg is not None:
+            # at a call site the callee's draw happens "inside" the call (only when there is something to pick from)
+            u = fresh("u", REAL)
+            ctx.st.assume(u >= 0, u < 1)
+            rg.draws.append(("random", u))
+        else:
+            u = rg.draws[-1][1] if rg is not None and rg.draws else None
         mm = ctx.st.ghost.get("PICK", z3.IntVal(-1))  # ghost: index of the returned segment
         if u is not None:
             lo_ok = z3.Or(to_real(z3.Select(PS, mm)) / to_real(nf) < u, z3.And(mm == 0, u == 0))  # u == 0 picks segment 0
@@ -192,8 +198,11 @@ def _wf_post(ctx):
                 ("pick.segment_length", z3.Implies(nf > 0, pplen(ctx.st, seg) == z3.Select(B, mm) - z3.Select(A, mm) + 1)),
                 ("pick.segment_frames_are_the_subpath", z3.Implies(nf > 0, forall_range(0, pplen(ctx.st, seg), lambda jj: ppat(ctx.st, seg, jj) == ppat(ctx.old, p, z3.Select(A, mm) + jj)))),
                 ("pick.no_weight_no_segment", z3.Implies(nf == 0, pplen(ctx.st, seg) == 0)),
+                ("pick.segment_has_interior_points", z3.Implies(nf > 0, z3.And(pplen(ctx.st, seg) >= 3, pplen(ctx.st, seg) <= n))),
             ]
         out.append(("segment_is_fresh_path", seg.term >= ctx.old.alloc))
+        out.append(("segment_is_well_formed", wf_path(ctx.st, seg)))
+        out.append(("segment_maxlen_is_the_paths", fld(ctx.st, "Path.maxlen", seg.term) == fld(ctx.old, "Path.maxlen", p.term)))
     else:
         out.append(("empty_segment_when_not_asked", z3.And(pplen(ctx.st, seg) == 0, seg.term >= ctx.old.alloc)))
     return out
